@@ -71,6 +71,8 @@ def instances(tier, seed):
                 N = [2, 3][n % 2]
                 M = [1, 2][(n // 2) % 2]
                 add(spec=model(), cfg=Cfg(method, N=N, M=M, intg=intg or 'rk', grid=[fam.G_UNI, fam.G_GEO_LOC][n % 2], degree=2, scheme='radau'), args=args, results=ress)
+                if n % 2 == 0 or tier != 'quick':
+                    add(spec=model(), cfg=Cfg(method, N=N, M=M, intg=intg or 'rk', grid=[fam.G_UNI, fam.G_GEO_LOC][n % 2], degree=2, scheme='radau'), args=args, results=ress, late=True)
                 n += 1
         # DAE under DirectCollocation: the special "z" argument (guess for the algebraic variables per control interval)
         for args, ress in ((['zstr'], ['x', 'u']), (['x', 'zstr'], ['x']), (['p:a', 'zstr'], ['u'])):
@@ -109,6 +111,18 @@ def run(item):
                 else:
                     args_mx.append(qty[a] if a != 'w' else b.vsym['w'])
         res_mx = [qty[r] for r in item['results']]
+        if item.get('late'):
+            # values and guesses assigned AFTER the first transcription to quantities that are not arguments: they are the "current values"
+            if 'p:b' not in item['args']:
+                ocp.set_value(b.psym['b'], 3.25)
+            if 'u' not in item['args']:
+                ocp.set_initial(b.us[0], 0.875)
+            if 'w' not in item['args']:
+                ocp.set_initial(b.vsym['w'], -0.625)
+            if 'x' not in item['args']:
+                ocp.set_initial(b.xs[1], 0.375)
+        x0_before = list(I.nlp.x0())
+        p_before = list(I.nlp.pval())
         F = ocp.to_function('F', args_mx, res_mx)
     # split the graph at the solver call
     solver = helper = None
@@ -155,8 +169,13 @@ def run(item):
         r_ = result(I, ch, {'violations': viol, 'shape': cfg.tag()})
         r_['status'] = 'violation'
         return r_
-    x0cur = list(I.nlp.x0())
-    pcur = list(I.nlp.pval())
+    x0cur = x0_before
+    pcur = p_before
+    x0_after, p_after = list(I.nlp.x0()), list(I.nlp.pval())
+    if not all(close(float(a_), float(c_)) for a_, c_ in zip(x0_before + p_before, x0_after + p_after)):
+        V('to_function-side-effect', 'x0/p', 'creating the Function changed the current initial guesses / parameter values of the OCP')
+    else:
+        ch.proved.append('to_function leaves current values untouched (ground)')
 
     def full(vals, pos, cur, mk):
         out = [mk(c) for c in cur]
